@@ -709,7 +709,13 @@ func parseCharacterEscape(text []byte) (end int) {
 
 func isEntity(x []byte) bool {
 	s := html.UnescapeString(string(x))
-	return !strings.HasPrefix(s, "&") || !strings.HasSuffix(s, ";")
+	if strings.HasPrefix(s, "&") && strings.HasSuffix(s, ";") {
+		return false
+	}
+	// The semicolon has to be part of the reference.
+	// HTML also knows legacy names that work without one (like "&not"),
+	// which would turn "&notit;" into a reference followed by "it;".
+	return s != html.UnescapeString(string(x[:len(x)-1]))+";"
 }
 
 func (p *InlineParser) parseDelimiterRun(state *inlineState, start int) (end int) {
